@@ -209,6 +209,7 @@ package godi
 //@ func scope.resolve
 //@   mode conc
 //@   interferes
+//@   nopanic
 //@   safety[C15,C13,C09]
 //@   requires recv: s != nil && s.rootProvider != nil && s.rootProvider.analyzer != nil
 //@   ghost d *Descriptor
@@ -278,3 +279,212 @@ package godi
 //@     invariant own_scope: forall c int :: 0 <= c && c < ncalls("scope.setInstance") ==> callarg("scope.setInstance", c, 0) == s
 //@     invariant stored_so_far: forall j int :: 0 <= j && j < idx && !info.Returns[j].IsError ==>
 //@        (exists c int :: 0 <= c && c < ncalls("scope.setInstance") && callarg("scope.setInstance", c, 3) == ext("(reflect.Value).Interface", "any", results[info.Returns[j].Index]))
+//
+// ---------------------------------------------------------------------------------------------
+// Entry points: a disposed scope / provider refuses work (C13), arguments are validated (C15).
+//@ func scope.Get
+//@   mode conc
+//@   interferes
+//@   nopanic
+//@   safety[C15,C13,C09]
+//@   requires recv: s != nil && s.rootProvider != nil && s.rootProvider.analyzer != nil
+//@   ensures[C13] disposed_refused: callret("atomic.Load:disposed", 0, 0) != 0 ==> result0 == nil && result1 == ErrScopeDisposed && ncalls("scope.resolve") == 0
+//@   ensures[C15] nil_type_rejected: callret("atomic.Load:disposed", 0, 0) == 0 && serviceType == nil ==> result0 == nil && result1 == ErrServiceTypeNil && ncalls("scope.resolve") == 0
+//@   ensures[C04,C18] resolves_by_type: callret("atomic.Load:disposed", 0, 0) == 0 && serviceType != nil ==> ncalls("scope.resolve") == 1 && callarg("scope.resolve", 0, 0) == s
+//@        && callarg("scope.resolve", 0, 1) == mk("instanceKey", serviceType, nil, "") && callarg("scope.resolve", 0, 2) == nil
+//@        && result0 == callret("scope.resolve", 0, 0) && result1 == callret("scope.resolve", 0, 1)
+//
+//@ func scope.GetKeyed
+//@   mode conc
+//@   interferes
+//@   nopanic
+//@   safety[C15,C13,C09]
+//@   requires recv: s != nil && s.rootProvider != nil && s.rootProvider.analyzer != nil
+//@   ensures[C13] disposed_refused: callret("atomic.Load:disposed", 0, 0) != 0 ==> result0 == nil && result1 == ErrScopeDisposed && ncalls("scope.resolve") == 0
+//@   ensures[C15] nil_type_rejected: callret("atomic.Load:disposed", 0, 0) == 0 && serviceType == nil ==> result0 == nil && result1 == ErrServiceTypeNil && ncalls("scope.resolve") == 0
+//@   ensures[C15] nil_key_rejected: callret("atomic.Load:disposed", 0, 0) == 0 && serviceType != nil && serviceKey == nil ==> result0 == nil && result1 == ErrServiceKeyNil && ncalls("scope.resolve") == 0
+//@   ensures[C04] resolves_by_type_and_key: callret("atomic.Load:disposed", 0, 0) == 0 && serviceType != nil && serviceKey != nil ==> ncalls("scope.resolve") == 1 && callarg("scope.resolve", 0, 0) == s
+//@        && callarg("scope.resolve", 0, 1) == mk("instanceKey", serviceType, serviceKey, "") && callarg("scope.resolve", 0, 2) == nil
+//@        && result0 == callret("scope.resolve", 0, 0) && result1 == callret("scope.resolve", 0, 1)
+//
+//@ func scope.GetGroup
+//@   mode conc
+//@   interferes
+//@   nopanic
+//@   safety[C15,C13,C09]
+//@   requires recv: s != nil && s.rootProvider != nil && s.rootProvider.analyzer != nil
+//@   requires members_nonnil: forall gk GroupKey, i int :: (gk in s.rootProvider.groups) && 0 <= i && i < len(s.rootProvider.groups[gk]) ==> s.rootProvider.groups[gk][i] != nil
+//@   ghost members []*Descriptor
+//@   at after assign descriptors#1 : ghost members := descriptors
+//@   ensures[C13] disposed_refused: callret("atomic.Load:disposed", 0, 0) != 0 ==> isnil(result0) && result1 == ErrScopeDisposed && ncalls("scope.resolve") == 0
+//@   ensures[C15] nil_type_rejected: callret("atomic.Load:disposed", 0, 0) == 0 && serviceType == nil ==> isnil(result0) && result1 == ErrServiceTypeNil && ncalls("scope.resolve") == 0
+//@   ensures[C15] empty_group_name_rejected: callret("atomic.Load:disposed", 0, 0) == 0 && serviceType != nil && group == "" ==> isnil(result0) && typeis(result1, "*ValidationError")
+//@        && as(result1, "*ValidationError").Cause == ErrGroupNameEmpty && ncalls("scope.resolve") == 0
+//@   ensures[C04,C08] empty_group_is_empty_slice: callret("atomic.Load:disposed", 0, 0) == 0 && serviceType != nil && group != "" && len(members) == 0 ==> result1 == nil && !isnil(result0) && len(result0) == 0 && ncalls("scope.resolve") == 0
+//@   ensures[C04,C03] members_in_registration_order: result1 == nil && len(members) > 0 ==> len(result0) == len(members) && ncalls("scope.resolve") == len(members)
+//@        && (forall i int :: 0 <= i && i < len(members) ==> callarg("scope.resolve", i, 2) == members[i] && callarg("scope.resolve", i, 0) == s && result0[i] == callret("scope.resolve", i, 0)
+//@             && callarg("scope.resolve", i, 1) == mk("instanceKey", members[i].Type, members[i].Key, members[i].Group))
+//@   ensures[C15] member_failure_is_classifiable: result1 != nil && ncalls("scope.resolve") > 0 ==> isnil(result0) && typeis(result1, "*ResolutionError")
+//@        && wraps(as(result1, "*ResolutionError").Cause, callret("scope.resolve", ncalls("scope.resolve") - 1, 1))
+//@   loop 1
+//@     invariant progress: ncalls("scope.resolve") == idx && len(instances) == idx && !isnil(instances) && descriptors == members
+//@     invariant members_ok: forall i int :: 0 <= i && i < len(descriptors) ==> descriptors[i] != nil
+//@     invariant in_order: forall i int :: 0 <= i && i < idx ==> callarg("scope.resolve", i, 2) == descriptors[i] && callarg("scope.resolve", i, 0) == s && instances[i] == callret("scope.resolve", i, 0)
+//@             && callarg("scope.resolve", i, 1) == mk("instanceKey", descriptors[i].Type, descriptors[i].Key, descriptors[i].Group) && callret("scope.resolve", i, 1) == nil
+//
+// ---------------------------------------------------------------------------------------------
+//@ func newScope
+//@   mode conc
+//@   interferes
+//@   nopanic
+//@   safety[C15,C13,C09]
+//@   requires args: rootProvider != nil && rootProvider.analyzer != nil
+//@   requires inits_nonnil: forall i int :: 0 <= i && i < len(rootProvider.voidReturnScopedDescriptors) ==> rootProvider.voidReturnScopedDescriptors[i] != nil
+//@   ghost inits []*Descriptor
+//@   ghost made *scope
+//@   at after assign s#1 : ghost made := s
+//@   at after assign s#1 : assert[C02] fresh_tables: fresh(s) && fresh(s.instances) && len(s.instances) == 0 && fresh(s.children) && len(s.children) == 0 && len(s.disposables) == 0 && s.disposed == 0
+//@   at after assign s#1 : assert[C18,C02] identity: s.rootProvider == rootProvider && s.parentScope == parent && s.cancel == cancel
+//@   at before loop 1 : ghost inits := rootProvider.voidReturnScopedDescriptors
+//@   ensures[C15] value_xor_error: (result1 == nil) <==> (result0 != nil)
+//@   ensures[C02,C18] returns_the_new_scope: result1 == nil ==> result0 == made && fresh(result0) && result0.rootProvider == rootProvider && result0.parentScope == parent && result0.cancel == cancel
+//@   ensures[C18] context_carries_scope: result1 == nil ==> result0.context != nil && ctxvalue(result0.context, box(mk("scopeContextKey"))) == box(result0)
+//@   ensures[C18] context_inherits: result1 == nil ==> ctxparent(result0.context) == ite(ctx == nil, ctxbackground(), ctx)
+//@   ensures[C02] initializers_once_in_order: result1 == nil ==> ncalls("scope.createInstance") == len(inits)
+//@        && (forall i int :: 0 <= i && i < len(inits) ==> callarg("scope.createInstance", i, 0) == made && callarg("scope.createInstance", i, 1) == inits[i])
+//@   ensures[C15] init_failure_is_classifiable: result1 != nil ==> typeis(result1, "*ResolutionError") && ncalls("scope.createInstance") >= 1
+//@        && wraps(as(result1, "*ResolutionError").Cause, callret("scope.createInstance", ncalls("scope.createInstance") - 1, 1))
+//@   ensures[C10,C14] failed_creation_is_cleaned_up: result1 != nil ==> ncalls("scope.Close") == 1 && callarg("scope.Close", 0, 0, "*scope") == made
+//@   loop 1
+//@     invariant progress: ncalls("scope.createInstance") == idx && s == made && s != nil && ncalls("scope.Close") == 0
+//@     invariant in_order: forall i int :: 0 <= i && i < idx ==> callarg("scope.createInstance", i, 0) == s && callarg("scope.createInstance", i, 1) == inits[i] && callret("scope.createInstance", i, 1) == nil
+//
+//@ func provider.CreateScope
+//@   mode conc
+//@   interferes
+//@   nopanic
+//@   safety[C15,C13,C09]
+//@   requires recv: p != nil && p.analyzer != nil
+//@   requires inits_nonnil: forall i int :: 0 <= i && i < len(p.voidReturnScopedDescriptors) ==> p.voidReturnScopedDescriptors[i] != nil
+//@   ensures[C13] disposed_refused: callret("atomic.Load:disposed", 0, 0) != 0 ==> result0 == nil && result1 == ErrProviderDisposed && ncalls("newScope") == 0 && ncalls("go:provider.CreateScope$1") == 0
+//@   ensures[C18,C14] derived_cancellable_context: callret("atomic.Load:disposed", 0, 0) == 0 ==> ncalls("newScope") == 1 && callarg("newScope", 0, 0) == p && callarg("newScope", 0, 1) == nil
+//@        && ctxparent(callarg("newScope", 0, 2)) == ite(ctx == nil, ctxbackground(), ctx) && ctxcancel(callarg("newScope", 0, 2)) == callarg("newScope", 0, 3)
+//@   ensures[C14,C10] failure_leaves_nothing: ncalls("newScope") == 1 && callret("newScope", 0, 1) != nil ==> result0 == nil && result1 != nil
+//@        && ncalls("provider.scopesMu.Lock") == 0 && ncalls("go:provider.CreateScope$1") == 0 && ncalls("fnvar:cancel") == 1
+//@   ensures[C15] failure_is_classifiable: ncalls("newScope") == 1 && callret("newScope", 0, 1) != nil ==> result1 == callret("newScope", 0, 1) || wraps(result1, callret("newScope", 0, 1))
+//@   ensures[C13,C16] success_returns_new_scope: ncalls("newScope") == 1 && callret("newScope", 0, 1) == nil && result1 == nil ==> result0 == box(callret("newScope", 0, 0, "*scope")) && ncalls("go:provider.CreateScope$1") == 1
+//@   at before call p.scopesMu.Unlock#1 : assert[C13] tracked: p.scopes != nil ==> (s in p.scopes)
+//
+//@ func provider.CreateScope$1
+//@   mode conc
+//@   interferes
+//@   requires captured: s != nil && ctx != nil
+//@   ensures[C13,C12] closes_on_done: ncalls("scope.Close") == 1 && callarg("scope.Close", 0, 0) == s
+//
+//@ func scope.CreateScope
+//@   mode conc
+//@   interferes
+//@   nopanic
+//@   safety[C15,C13,C09]
+//@   requires recv: s != nil && s.rootProvider != nil && s.rootProvider.analyzer != nil
+//@   requires inits_nonnil: forall i int :: 0 <= i && i < len(s.rootProvider.voidReturnScopedDescriptors) ==> s.rootProvider.voidReturnScopedDescriptors[i] != nil
+//@   ensures[C13] disposed_refused: callret("atomic.Load:disposed", 0, 0) != 0 ==> result0 == nil && result1 == ErrScopeDisposed && ncalls("newScope") == 0 && ncalls("go:scope.CreateScope$1") == 0
+//@   ensures[C18,C14] derived_cancellable_context: callret("atomic.Load:disposed", 0, 0) == 0 ==> ncalls("newScope") == 1 && callarg("newScope", 0, 0) == s.rootProvider && callarg("newScope", 0, 1) == s
+//@        && ctxparent(callarg("newScope", 0, 2)) == ite(ctx == nil, s.context, ctx) && ctxcancel(callarg("newScope", 0, 2)) == callarg("newScope", 0, 3)
+//@   ensures[C14,C10] failure_leaves_nothing: ncalls("newScope") == 1 && callret("newScope", 0, 1) != nil ==> result0 == nil && result1 != nil
+//@        && ncalls("scope.childrenMu.Lock") == 0 && ncalls("provider.scopesMu.Lock") == 0 && ncalls("go:scope.CreateScope$1") == 0 && ncalls("fnvar:cancel") == 1
+//@   ensures[C15] failure_is_classifiable: ncalls("newScope") == 1 && callret("newScope", 0, 1) != nil ==> wraps(result1, callret("newScope", 0, 1))
+//@   ensures[C13,C16] success_returns_new_scope: ncalls("newScope") == 1 && callret("newScope", 0, 1) == nil && result1 == nil ==> result0 == box(callret("newScope", 0, 0, "*scope")) && ncalls("go:scope.CreateScope$1") == 1
+//@   at before call s.childrenMu.Unlock#1 : assert[C13] tracked_by_parent: s.children != nil ==> (child in s.children)
+//@   at before call s.rootProvider.scopesMu.Unlock#1 : assert[C13] tracked_by_provider: s.rootProvider.scopes != nil ==> (child in s.rootProvider.scopes)
+//
+//@ func scope.CreateScope$1
+//@   mode conc
+//@   interferes
+//@   requires captured: child != nil && ctx != nil
+//@   ensures[C13,C12] closes_on_done: ncalls("scope.Close") == 1 && callarg("scope.Close", 0, 0) == child
+//
+// ---------------------------------------------------------------------------------------------
+//@ func provider.Get
+//@   mode conc
+//@   interferes
+//@   nopanic
+//@   safety[C15,C13,C09]
+//@   requires recv: p != nil && p.rootScope != nil && p.rootScope.rootProvider != nil && p.rootScope.rootProvider.analyzer != nil
+//@   ensures[C13] disposed_refused: callret("atomic.Load:disposed", 0, 0) != 0 ==> result0 == nil && result1 == ErrProviderDisposed && ncalls("scope.Get") == 0
+//@   ensures[C15] nil_type_rejected: callret("atomic.Load:disposed", 0, 0) == 0 && serviceType == nil ==> result0 == nil && result1 == ErrServiceTypeNil && ncalls("scope.Get") == 0
+//@   ensures[C01,C18] delegates_to_root_scope: callret("atomic.Load:disposed", 0, 0) == 0 && serviceType != nil ==> ncalls("scope.Get") == 1 && callarg("scope.Get", 0, 0) == p.rootScope
+//@        && callarg("scope.Get", 0, 1) == serviceType && result0 == callret("scope.Get", 0, 0) && result1 == callret("scope.Get", 0, 1)
+//
+//@ func provider.GetKeyed
+//@   mode conc
+//@   interferes
+//@   nopanic
+//@   safety[C15,C13,C09]
+//@   requires recv: p != nil && p.rootScope != nil && p.rootScope.rootProvider != nil && p.rootScope.rootProvider.analyzer != nil
+//@   ensures[C13] disposed_refused: callret("atomic.Load:disposed", 0, 0) != 0 ==> result0 == nil && result1 == ErrProviderDisposed && ncalls("scope.GetKeyed") == 0
+//@   ensures[C15] nil_type_rejected: callret("atomic.Load:disposed", 0, 0) == 0 && serviceType == nil ==> result0 == nil && result1 == ErrServiceTypeNil && ncalls("scope.GetKeyed") == 0
+//@   ensures[C15] nil_key_rejected: callret("atomic.Load:disposed", 0, 0) == 0 && serviceType != nil && key == nil ==> result0 == nil && result1 == ErrServiceKeyNil && ncalls("scope.GetKeyed") == 0
+//@   ensures[C01,C18] delegates_to_root_scope: callret("atomic.Load:disposed", 0, 0) == 0 && serviceType != nil && key != nil ==> ncalls("scope.GetKeyed") == 1 && callarg("scope.GetKeyed", 0, 0) == p.rootScope
+//@        && callarg("scope.GetKeyed", 0, 1) == serviceType && callarg("scope.GetKeyed", 0, 2) == key && result0 == callret("scope.GetKeyed", 0, 0) && result1 == callret("scope.GetKeyed", 0, 1)
+//
+//@ func provider.GetGroup
+//@   mode conc
+//@   interferes
+//@   nopanic
+//@   safety[C15,C13,C09]
+//@   requires recv: p != nil && p.rootScope != nil && p.rootScope.rootProvider != nil && p.rootScope.rootProvider.analyzer != nil
+//@   requires members_nonnil: forall gk GroupKey, i int :: (gk in p.rootScope.rootProvider.groups) && 0 <= i && i < len(p.rootScope.rootProvider.groups[gk]) ==> p.rootScope.rootProvider.groups[gk][i] != nil
+//@   ensures[C13] disposed_refused: callret("atomic.Load:disposed", 0, 0) != 0 ==> isnil(result0) && result1 == ErrProviderDisposed && ncalls("scope.GetGroup") == 0
+//@   ensures[C15] nil_type_rejected: callret("atomic.Load:disposed", 0, 0) == 0 && serviceType == nil ==> isnil(result0) && result1 == ErrServiceTypeNil && ncalls("scope.GetGroup") == 0
+//@   ensures[C15] empty_group_name_rejected: callret("atomic.Load:disposed", 0, 0) == 0 && serviceType != nil && group == "" ==> isnil(result0) && typeis(result1, "*ValidationError")
+//@        && as(result1, "*ValidationError").Cause == ErrGroupNameEmpty && ncalls("scope.GetGroup") == 0
+//@   ensures[C01,C18] delegates_to_root_scope: callret("atomic.Load:disposed", 0, 0) == 0 && serviceType != nil && group != "" ==> ncalls("scope.GetGroup") == 1 && callarg("scope.GetGroup", 0, 0) == p.rootScope
+//@        && callarg("scope.GetGroup", 0, 1) == serviceType && callarg("scope.GetGroup", 0, 2) == group && result0 == callret("scope.GetGroup", 0, 0) && result1 == callret("scope.GetGroup", 0, 1)
+//
+//@ func FromContext
+//@   safety[C15,C18]
+//@   nopanic
+//@   ensures[C15] nil_context_rejected: ctx == nil ==> result0 == nil && typeis(result1, "*ValidationError")
+//@   ensures[C18] finds_scope_value: ctx != nil && typeis(ctxvalue(ctx, box(mk("scopeContextKey"))), "Scope") ==> result1 == nil && result0 == ctxvalue(ctx, box(mk("scopeContextKey")))
+//@   ensures[C18,C15] no_scope_is_error: ctx != nil && !typeis(ctxvalue(ctx, box(mk("scopeContextKey"))), "Scope") ==> result0 == nil && typeis(result1, "*ResolutionError")
+//
+//@ func scope.Provider
+//@   requires recv: s != nil
+//@   ensures[C18] root_provider: result == box(s.rootProvider)
+//@ func scope.Context
+//@   requires recv: s != nil
+//@   ensures[C18] own_context: result == s.context
+//
+// ---------------------------------------------------------------------------------------------
+//@ pred occursNode(n *graph.Node, l []*graph.Node) = exists i int :: 0 <= i && i < len(l) && l[i] == n
+//
+//@ func provider.createAllSingletonsWithContext
+//@   mode conc
+//@   interferes
+//@   nopanic
+//@   safety[C15,C13,C09]
+//@   requires recv: p != nil && p.graph != nil && p.rootScope != nil && p.rootScope.rootProvider == p && p.analyzer != nil && ctx != nil
+//@   requires graph_wf: wf(p.graph)
+//@   requires typed_nil_excluded: forall n *graph.Node :: {n.Provider} typeis(n.Provider, "*Descriptor") ==> as(n.Provider, "*Descriptor") != nil
+//@   ghost order []*graph.Node
+//@   ghost pos seq[int]
+//@   at after assign sorted#1 : ghost order := sorted
+//@   at before call p.rootScope.createInstance#1 : ghost pos[ncalls("scope.createInstance")] := idx
+//@   at before call p.rootScope.createInstance#1 : assert[C01] create_only_if_absent: descriptor != nil && descriptor.Lifetime == Singleton && !callret("provider.singletons.Load", ncalls("provider.singletons.Load") - 1, 1)
+//@        && callarg("provider.singletons.Load", ncalls("provider.singletons.Load") - 1, 1) == box(mk("instanceKey", descriptor.Type, descriptor.Key, descriptor.Group))
+//@   ensures[C06,C15] sort_failure_is_classifiable: ncalls("graph.DependencyGraph.TopologicalSort") == 1 && (callret("graph.DependencyGraph.TopologicalSort", 0, 1) != nil ==>
+//@        typeis(result, "*GraphOperationError") && as(result, "*GraphOperationError").Cause == callret("graph.DependencyGraph.TopologicalSort", 0, 1) && ncalls("scope.createInstance") == 0)
+//@   ensures[C01,C06] only_singletons_in_sorted_order: forall c int :: 0 <= c && c < ncalls("scope.createInstance") ==> callarg("scope.createInstance", c, 0) == p.rootScope
+//@        && 0 <= pos[c] && pos[c] < len(order) && order[pos[c]] != nil && callarg("scope.createInstance", c, 1) == as(order[pos[c]].Provider, "*Descriptor")
+//@        && callarg("scope.createInstance", c, 1, "*Descriptor").Lifetime == Singleton
+//@   ensures[C06] creation_follows_topological_order: forall a int, b int :: 0 <= a && a < b && b < ncalls("scope.createInstance") ==> pos[a] < pos[b]
+//@   ensures[C15,C08] first_failure_stops_and_is_wrapped: result != nil && ncalls("scope.createInstance") > 0 && !typeis(result, "*BuildError") && !typeis(result, "*ValidationError") ==>
+//@        typeis(result, "*ResolutionError") && as(result, "*ResolutionError").Cause == callret("scope.createInstance", ncalls("scope.createInstance") - 1, 1)
+//@   ensures[C01,C15] success_means_every_create_succeeded: result == nil ==> (forall c int :: 0 <= c && c < ncalls("scope.createInstance") ==> callret("scope.createInstance", c, 1) == nil)
+//@   loop 1
+//@     invariant sorted_kept: sorted == order && ncalls("graph.DependencyGraph.TopologicalSort") == 1 && callret("graph.DependencyGraph.TopologicalSort", 0, 1) == nil
+//@     invariant calls_ok: forall c int :: 0 <= c && c < ncalls("scope.createInstance") ==> callarg("scope.createInstance", c, 0) == p.rootScope
+//@        && 0 <= pos[c] && pos[c] < idx && order[pos[c]] != nil && callarg("scope.createInstance", c, 1) == as(order[pos[c]].Provider, "*Descriptor")
+//@        && callarg("scope.createInstance", c, 1, "*Descriptor").Lifetime == Singleton && callret("scope.createInstance", c, 1) == nil
+//@     invariant monotone: forall a int, b int :: 0 <= a && a < b && b < ncalls("scope.createInstance") ==> pos[a] < pos[b]
